@@ -269,12 +269,12 @@ func checkC13(c *Ctx, r *Report) {
 			// deadline calls fed from ctxp.Deadline()
 			avoidB := map[*ssa.BasicBlock]bool{}
 			avoidE := map[edge]bool{}
-			allInstrs(send, false, func(in ssa.Instruction) {
+			viewInstrs(send, func(in ssa.Instruction) {
 				if isCallTo(in, deadlineFns...) {
 					args := callArgs(asCall(in))
 					if len(args) == 1 {
 						if ex, ok := args[0].(*ssa.Extract); ok && ex.Index == 0 {
-							if dc, ok := ex.Tuple.(*ssa.Call); ok && dc.Call.IsInvoke() && dc.Call.Method.Name() == "Deadline" && dc.Call.Value == ssa.Value(ctxp) {
+							if dc, ok := ex.Tuple.(*ssa.Call); ok && dc.Call.IsInvoke() && dc.Call.Method.Name() == "Deadline" && viewVal(send, dc.Call.Value) == ssa.Value(ctxp) {
 								if in.Block() != io.Block() || instrIndex(in) < instrIndex(io) {
 									avoidB[in.Block()] = true
 								}
@@ -283,9 +283,9 @@ func checkC13(c *Ctx, r *Report) {
 					}
 				}
 			})
-			for _, ifi := range ifsOf(send) {
+			for _, ifi := range viewIfs(send) {
 				if ex, ok := ifi.Cond.(*ssa.Extract); ok && ex.Index == 1 {
-					if dc, ok := ex.Tuple.(*ssa.Call); ok && dc.Call.IsInvoke() && dc.Call.Method.Name() == "Deadline" && dc.Call.Value == ssa.Value(ctxp) {
+					if dc, ok := ex.Tuple.(*ssa.Call); ok && dc.Call.IsInvoke() && dc.Call.Method.Name() == "Deadline" && viewVal(send, dc.Call.Value) == ssa.Value(ctxp) {
 						avoidE[edge{ifi.Block(), ifi.Block().Succs[1]}] = true
 					}
 				}
@@ -300,7 +300,7 @@ func checkC13(c *Ctx, r *Report) {
 			r.Check(okk, name+"|"+kind, io.Pos(), "deadline set from ctx before the call on every path", "socket "+kind+" can be reached without the "+kind+" deadline having been set from the context (blocks past the deadline)")
 		}
 		nIO := 0
-		allInstrs(send, false, func(in ssa.Instruction) {
+		viewInstrs(send, func(in ssa.Instruction) {
 			if isCallTo(in, sockWrites...) {
 				nIO++
 				check(in, "write", sockWriteDeadline)
@@ -427,7 +427,7 @@ func checkC13(c *Ctx, r *Report) {
 					r.Bad(c.FnName(fn)+"|"+calleeName(&x.Call), in.Pos(), "blocking primitive not bounded by the context")
 				}
 				// socket I/O outside transport.Send
-				if (isCallTo(in, sockReads...) || isCallTo(in, sockWrites...)) && fn != send {
+				if (isCallTo(in, sockReads...) || isCallTo(in, sockWrites...)) && send != nil && !c.privateTo(send, fn) {
 					r.Bad(c.FnName(fn)+"|socket I/O", in.Pos(), "socket I/O outside transport.Send (no deadline discipline)")
 				}
 			}
